@@ -204,6 +204,7 @@ package system
 //@   ensures istype(input, Date) && has ==> eq == (cmpDate(d.date, d.l, o.date, o.l) == CMP_EQ)
 //@   loop 1:
 //@     invariant 0 <= i && i <= minPrecision + 1 && minPrecision <= 2
+//@     decreases minPrecision + 1 - i
 //@     invariant forall k int :: 0 <= k && k < i ==> dComponents[k] == valComponents[k]
 //@   assigns nothing
 //
@@ -216,6 +217,7 @@ package system
 //@   ensures istype(input, Date) && cmpDate(d.date, d.l, o.date, o.l) != CMP_EMPTY ==> err == nil && res == (cmpDate(d.date, d.l, o.date, o.l) == CMP_LT)
 //@   loop 1:
 //@     invariant 0 <= i && i <= minPrecision + 1 && minPrecision <= 2
+//@     decreases minPrecision + 1 - i
 //@     invariant forall k int :: 0 <= k && k < i ==> dComponents[k] == valComponents[k]
 //@   assigns nothing
 //
@@ -232,6 +234,7 @@ package system
 //@   ensures istype(input, Time) && has ==> eq == (cmpTime(t.time, t.l, o.time, o.l) == CMP_EQ)
 //@   loop 1:
 //@     invariant 0 <= i && i <= minPrecision + 1 && minPrecision <= 2
+//@     decreases minPrecision + 1 - i
 //@     invariant forall k int :: 0 <= k && k < i ==> tComponents[k] == valComponents[k] && k != 2
 //@   assigns nothing
 //
@@ -244,6 +247,7 @@ package system
 //@   ensures istype(input, Time) && cmpTime(t.time, t.l, o.time, o.l) != CMP_EMPTY ==> err == nil && res == (cmpTime(t.time, t.l, o.time, o.l) == CMP_LT)
 //@   loop 1:
 //@     invariant 0 <= i && i <= minPrecision + 1 && minPrecision <= 2
+//@     decreases minPrecision + 1 - i
 //@     invariant forall k int :: 0 <= k && k < i ==> tComponents[k] == valComponents[k] && k != 2
 //@   assigns nothing
 //
@@ -260,6 +264,7 @@ package system
 //@   ensures istype(input, DateTime) && has ==> eq == (cmpDT(dt.dateTime, dt.l, o.dateTime, o.l) == CMP_EQ)
 //@   loop 1:
 //@     invariant 0 <= i && i <= minPrecision + 1 && minPrecision <= 5
+//@     decreases minPrecision + 1 - i
 //@     invariant forall k int :: 0 <= k && k < i ==> dtComponents[k] == valComponents[k] && k != 5
 //@   assigns nothing
 //
@@ -272,6 +277,7 @@ package system
 //@   ensures istype(input, DateTime) && cmpDT(dt.dateTime, dt.l, o.dateTime, o.l) != CMP_EMPTY ==> err == nil && res == (cmpDT(dt.dateTime, dt.l, o.dateTime, o.l) == CMP_LT)
 //@   loop 1:
 //@     invariant 0 <= i && i <= minPrecision + 1 && minPrecision <= 5
+//@     decreases minPrecision + 1 - i
 //@     invariant forall k int :: 0 <= k && k < i ==> dtComponents[k] == valComponents[k] && k != 5
 //@   assigns nothing
 //
@@ -611,6 +617,7 @@ package system
 //@   ensures !strcontains(body, "\\") ==> string(res) == body
 //@   loop 1:
 //@     invariant 0 <= i && i <= len(input)
+//@     decreases len(input) - i
 //@ func hexUnit(s, at) (res, ok)
 //@   requires at <= len(s)
 //@   ensures ok ==> 0 <= at && at + 4 <= len(s)
